@@ -41,10 +41,16 @@ theorem findFree_fresh (taken : List Blk) (base : Nat) (fuel p : Nat) (hf : maxP
     · assumption
 
 /-- **a duplicate's padded bytecode differs from every registered bytecode** -/
-theorem padStep_fresh (dupes : List (Blk × Nat)) (taken : List Blk) (code : Code) (n : Nat)
-    (h : alookup code.blk dupes = some n) : (padStep dupes taken code).1.blk ∉ taken := by
-  simp only [padStep, h]
-  exact findFree_fresh taken _ _ _ (by omega)
+theorem padStep_fresh (dupes : List (Blk × Nat)) (codes : List Code) (code : Code)
+    (h : (alookup code.blk dupes).isSome = true ∨ clashes codes code = true) : (padStep dupes codes code).1.blk ∉ codes.map (·.blk) := by
+  unfold padStep
+  cases hd : alookup code.blk dupes with
+  | some n => exact findFree_fresh _ _ _ _ (by omega)
+  | none =>
+    rcases h with h | h
+    · rw [hd] at h; cases h
+    · simp only [h, if_true]
+      exact findFree_fresh _ _ _ _ (by omega)
 
 /-! ## the entries of one label -/
 
